@@ -170,15 +170,15 @@ type c14MTask struct {
 	Enabled  bool
 	Template string
 	Vars     string // "", int, float
-	DBRP     string // database of the task's single dbrp; "?" = not determined by the property
-	Running  string // outcome of the last start attempt since the task was last enabled: "" (none or failed), ok
+	DBRP     string // database of the task's single dbrp; "" = none (a task without dbrps cannot be started)
+	Running  string // outcome of the last start attempt since the task was last enabled: "" (none or failed), ok, ? (either: see patchTemplate)
 }
 
 // start models one start attempt: a definition that names an InfluxDB cluster that does not exist is accepted
 // (the pipeline is valid) but cannot be started.
 func (t *c14MTask) start() bool {
 	t.Running = "ok"
-	if c14ByText[t.Script].Fails {
+	if c14ByText[t.Script].Fails || t.DBRP == "" {
 		t.Running = ""
 		if simrt.Active() {
 			simrt.Count("probe.start_attempt_failed")
@@ -351,8 +351,22 @@ func (m *c14Model) apply(op c14Op) bool {
 		for _, id := range simrt.Keys(m.Tasks) {
 			t := m.Tasks[id]
 			// (a task whose only dbrp was the old template's cannot run a template that declares none)
-			if t.Template == op.ID && t.Enabled && (!c14Valid(ns.Text, t.Vars) || c14ByText[oldText].Implicit != "" && ns.Implicit == "") {
+			newDBRP := t.DBRP
+			if ns.Implicit != "" {
+				newDBRP = ns.Implicit
+			} else if c14ByText[oldText].Implicit != "" {
+				newDBRP = ""
+			}
+			if t.Template == op.ID && t.Enabled && (!c14Valid(ns.Text, t.Vars) || newDBRP == "") {
 				m.TmplAlt[op.ID] = ns.Text
+				// rolling back reloads the tasks that had been updated before the failing one: an enabled task of the
+				// template that was not executing may have been given another (successful) start
+				for _, id2 := range simrt.Keys(m.Tasks) {
+					if t2 := m.Tasks[id2]; t2.Template == op.ID && t2.Enabled && t2.Running == "" {
+						t2.Running = "?"
+						m.Tasks[id2] = t2
+					}
+				}
 				return false
 			}
 		}
@@ -365,7 +379,10 @@ func (m *c14Model) apply(op c14Op) bool {
 				case ns.Implicit != "":
 					t.DBRP = ns.Implicit
 				case c14ByText[oldText].Implicit != "":
-					t.DBRP = "?" // the only dbrp the task had was the old template's
+					t.DBRP = "" // the only dbrp the task had was the old template's: it has none now
+				}
+				if t.Enabled {
+					t.start() // an enabled task is reloaded with the new script
 				}
 				m.Tasks[id] = t
 			}
@@ -659,7 +676,7 @@ func c14Run(c *Ctx, sc *c14Scenario, cfg simrt.Config, path string, from int, mo
 			alt = nil
 			for _, id := range simrt.Keys(life.model.Tasks) {
 				t := life.model.Tasks[id]
-				if exec[id] != (t.Running == "ok") {
+				if t.Running != "?" && exec[id] != (t.Running == "ok") {
 					life.verdict = Fail("executing/out-of-step", "%s task %s is enabled=%v, its last start attempt %s, but the API says executing=%v", when, id, t.Enabled,
 						map[string]string{"": "failed or never happened", "ok": "succeeded"}[t.Running], exec[id])
 					return false
